@@ -567,7 +567,7 @@ Proof.
   { unfold member_all in H2. destruct (olookup k_actions n1) as [[| | | |l|]|]; try reflexivity.
     erewrite forallb_ext_in; [exact H2|]. intro x. destruct x; reflexivity. }
   unfold on_object_member. rewrite Hro. destruct (olookup k_router n) as [[| | | | |r]|] eqn:Er;
-    cbn [fst snd node_ok]; try (rewrite Hro, Er, Hacts; auto).
+    cbn [fst snd node_ok]; try (rewrite Hro, Hacts; auto).
   destruct (Hr st1 r H1 Hnr) as [H3 H4].
   destruct (fr st1 r) as [st2 r']. cbn [fst snd] in *. split; [exact H3|].
   rewrite olookup_oset_same, H4, andb_true_r. now rewrite olookup_oset_other by key_neq.
